@@ -478,9 +478,18 @@ def rec_imputer_class(base):
                 except TypeError:
                     sub = None
                 w.callout("imputer")
-                w.events.append(("II", self._sim_id, sub, type(feature_subset).__name__, snap(x_i), n_samples))
+                st = getattr(self, "storage_object", None)
+                rows = None
+                if st is not None:
+                    data = st.get_data()
+                    rows = ([dict(r) for r in data[0]], [id(r) for r in data[0]], list(data[1]))
+                w.events.append(("II", self._sim_id, sub, type(feature_subset).__name__, snap(x_i), n_samples, rows))
                 out = base.impute(self, feature_subset, x_i, n_samples)
-                w.events.append(("IO", self._sim_id, [snap(p) for p in out]))
+                after = None
+                if st is not None:
+                    data = st.get_data()
+                    after = ([dict(r) for r in data[0]], [id(r) for r in data[0]], list(data[1]))
+                w.events.append(("IO", self._sim_id, [snap(p) for p in out], after))
                 return out
         RecImputer.__name__ = "Rec" + base.__name__
         cls = _REC_IMPUTER_CACHE[base] = RecImputer
